@@ -247,7 +247,7 @@ def run_scale(pid, tier, rep, deadline_s):
                              'rule': 'each family instance is an ordinary DSL parser (custom limits) of a grammar generated by gen/scale_gen.py at a size the injection frames cannot reach; its real table and item sets are walked against the dynamic reference LR(1) collection (ref/lr1_dyn.hpp), the complete write_diag_str text is compared with the text regenerated from the reference, and every token string up to the family length bound over a terminal sample that includes the highest indices, plus listed sentences, is parsed and compared (outcome, reduction sequence, error stream) with the documented driver'}
     if incomplete: rep.coverage['exhaustive'] = False
     rep.coverage.setdefault('bounds', []).append({'pass': 'E-SCALE: %d generated grammar families beyond the frames\' size (up to %s terminals, %s rules, %s nonterminals, %s states)' % (
-        len(fams), max([x['terminals'] for x in fams] or [0]), max([x['rules'] for x in fams] or [0]), max([x['nonterminals'] for x in fams] or [0]), max([x['states'] for x in fams] or [0])), 'completed': not incomplete})
+        len(fams), max([x['terminals'] or 0 for x in fams] or [0]), max([x['rules'] or 0 for x in fams] or [0]), max([x['nonterminals'] or 0 for x in fams] or [0]), max([x['states'] or 0 for x in fams] or [0])), 'completed': not incomplete})
     rep.coverage['states'] = rep.coverage.get('states', 0) + tot.get('real_states', 0)
     rep.coverage['transitions'] = rep.coverage.get('transitions', 0) + tot.get('cells', 0) + tot.get('parses', 0)
     rep.coverage['traces_validated_against_impl'] = rep.coverage.get('traces_validated_against_impl', 0) + tot.get('parses', 0)
